@@ -1,5 +1,6 @@
 from __future__ import annotations
 
+import re
 from typing import TYPE_CHECKING
 
 from fortls.constants import CLASS_TYPE_ID, KEYWORD_ID_DICT, METH_TYPE_ID
@@ -91,7 +92,13 @@ class Method(Variable):  # i.e. TypeBound procedure
                 # The link has no signature of its own (a generic interface)
                 return f"{self.get_desc(no_link=True)} :: {self.name}", docs
             # Replace the name of the linked object with the name of this object
-            hover_str = link_msg.replace(self.link_obj.name, self.name, 1)
+            # (the whole word: a name such as ``S`` also occurs inside SUBROUTINE)
+            hover_str = re.sub(
+                rf"\b{re.escape(self.link_obj.name)}\b",
+                lambda _: self.name,
+                link_msg,
+                count=1,
+            )
             if isinstance(link_docs, str):
                 # Get just the docstring of the link, if any, no args
                 link_doc_top = self.link_obj.get_documentation()
